@@ -513,7 +513,9 @@ theorem finalizeStandard_ok (w : Writer) (width height : Nat) (md : Option Metad
     · simp at h
     · split at h
       · simp at h
-      · next hp => exact moovPanics_false _ _ _ _ _ (by simpa using hp)
+      · split at h
+        · simp at h
+        · next hp => exact moovPanics_false _ _ _ _ _ (by simpa using hp)
 
 theorem finalizeFastStart_ok (w : Writer) (width height : Nat) (md : Option Metadata) (vc : VideoConfig)
     (h : (finalizeFastStart w width height md vc).res = .ok) :
@@ -713,9 +715,12 @@ theorem finalizeStandard_moov (w : Writer) (width height : Nat) (md : Option Met
       split at h
       · simp at h
       · rw [if_neg (by assumption)]
-        refine ⟨_, List.mem_append_right _ (List.mem_singleton.mpr rfl), ?_⟩
-        unfold MoovOf; rw [ha]
-        exact ⟨_, 1, _, rfl⟩
+        split at h
+        · simp at h
+        · rw [if_neg (by assumption)]
+          refine ⟨_, List.mem_append_right _ (List.mem_singleton.mpr rfl), ?_⟩
+          unfold MoovOf; rw [ha]
+          exact ⟨_, 1, _, rfl⟩
 
 theorem res_ite_ioErr {c : Prop} [Decidable c] {a : List Bytes} {m : String} {Y : FinOut}
     (h : (if c then (⟨a, .ioErr m⟩ : FinOut) else Y).res = .ok) : ¬ c ∧ Y.res = .ok := by
